@@ -39,6 +39,8 @@ QUTIP_CONST = {
 class Tr:
     def __init__(self, fn_arity):
         self.fn_arity = fn_arity  # gate function name -> number of parameters (None = not translated)
+        self.expansions = {}      # gate function name -> mexp text of the operator its N-expansion branch embeds (or None)
+        self.current = None       # (name, arity) of the function being translated: its expansion branch calls itself
 
     # ---- scalars --------------------------------------------------------------------------
     def ex(self, n, env):
@@ -165,6 +167,8 @@ class Tr:
                 return f"MCtrl 1 1 ({self.mat(n.args[0], env)})"
             if f in self.fn_arity:
                 ar = self.fn_arity[f]
+                if ar is None and self.current and self.current[0] == f:
+                    ar = self.current[1]
                 if ar is None:
                     raise Refuse(f"call of untranslated gate function {f}")
                 args = self.call_args(n, env)
@@ -293,6 +297,7 @@ def translate_function(fd, tr):
         env[p] = f"Var {j}"
     arity = len(gate_params)
     stmts = list(body)
+    expansion = None
     # tuple-unpacking of a single `args` parameter
     if stmts and isinstance(stmts[0], ast.Assign) and isinstance(stmts[0].targets[0], ast.Tuple) \
             and isinstance(stmts[0].value, ast.Name) and stmts[0].value.id in env and arity == 1:
@@ -300,6 +305,7 @@ def translate_function(fd, tr):
         env = {nm: f"Var {j}" for j, nm in enumerate(names)}
         arity = len(names)
         stmts = stmts[1:]
+    tr.current = (fd.name, arity)
     # deprecated expansion branches: `if <placement test> and N is None: N = k` and `if N is not None: ... return expand_operator(...)`
     while stmts and isinstance(stmts[0], ast.If):
         s = stmts[0]
@@ -310,11 +316,24 @@ def translate_function(fd, tr):
             continue
         if ast.unparse(s.test) == "N is not None" and not s.orelse and isinstance(s.body[-1], ast.Return) \
                 and "expand_operator(" in ast.unparse(s.body[-1]):
+            # the operator handed to expand_operator must be the gate itself: it is translated like the main return and
+            # compared with it inside Coq (obligation chk_expansions); the placement arguments are tied numerically
+            rv = s.body[-1].value
+            if not (isinstance(rv, ast.Call) and ast.unparse(rv.func) == "expand_operator" and rv.args):
+                raise Refuse("expansion branch does not return expand_operator(<gate>, ...)")
+            for b in s.body[:-1]:
+                if not (isinstance(b, ast.Expr) and isinstance(b.value, ast.Call)
+                        and ast.unparse(b.value.func) == "_deprecation_warnings_gate_expansion"):
+                    raise Refuse("expansion branch: unexpected statement " + ast.unparse(b)[:60])
+            expansion = tr.mat(rv.args[0], env)
             stmts = stmts[1:]
             continue
         raise Refuse("unrecognised if-statement: " + txt[:80])
     if len(stmts) != 1 or not isinstance(stmts[0], ast.Return):
         raise Refuse("body is not a single return of a matrix expression")
+    if "N" in params and expansion is None:
+        raise Refuse("the function takes N but no `if N is not None: return expand_operator(...)` branch was recognised")
+    tr.expansions[fd.name] = expansion
     return arity, tr.mat(stmts[0].value, env)
 
 
@@ -490,6 +509,10 @@ def generate():
     out.append("Definition class_mat : list (string * mexp) := [" + ";\n  ".join(f'("{c}", {t})' for c, t in class_mat.items()) + "].")
     out.append("Definition class_map : list (string * string) := [" + "; ".join(f'("{g}", "{c}")' for g, c in cmap) + "].")
     out.append(f"Definition globalphase_ex : ex := {gp_ex}.")
+    out.append("(* operator embedded by the deprecated N/target expansion branch of a gate function, with the function's own matrix *)")
+    out.append("Definition expansions : list (string * (mexp * mexp)) := [" +
+               ";\n  ".join(f'("{n}", ({tr.expansions[n]}, fn_{n}))' for n in results
+                            if n in emitted and tr.expansions.get(n)) + "].")
     text = "\n".join(out) + "\n"
     write_if_changed(os.path.join(COQ, "Gen", "Gates.v"), text)
     return dict(functions=sorted(emitted), refused=refused, dispatch=[g for g, _ in dispatch], classes=sorted(class_mat), class_map=cmap)
